@@ -10,6 +10,12 @@ tables     the 4x24 tetrahedra tables of the C code == Python tables; for each m
            four translates (one per vertex taken as the central grid point) of six tetrahedra that share that diagonal
            and tile the microcell: no point of (0,1)^3 is uncovered and no two share an interior point (LRA queries
            over a symbolic point).
+dos        TotalDos / ProjectedDos (phonopy/phonon/dos.py) executed in E2: the smearing kernels equal the normalised Gaussian /
+           Lorentzian for all x, sigma (exp uninterpreted); smearing DOS/PDOS equal the weight-normalised sums for all
+           amplitudes and coefficients; tetrahedron PDOS with *symbolic |e|^2 coefficients* on a real mesh (fused compiled
+           kernel as IR through the bridge, and the Python TetrahedronMesh route): sum over atoms == DOS weighted by
+           sum_j |e_j|^2 (the total DOS for normalised eigenvectors), PDOS >= 0 for non-negative coefficients, compiled ==
+           Python for all coefficients; TotalDos C == Py == sum of the real PDOS (ground facts).
 grid       rgd_get_double_grid_address/index with *symbolic* grid addresses (LIA): index in [0, prod N) and equal to the
            x-fastest index of (address mod N); phpy_get_tetrahedra_frequenies neighbour lookup consistent with it.
 """
@@ -23,6 +29,7 @@ import z3
 from engine import harness, kernels, llsym, symnp
 from engine.llsym import Machine, Ptr, zr
 from engine.framework import Check, Result, HarnessError, solve, model_value
+from engine.harness import assert_equal, box
 
 PID = "C11"
 V = [z3.Real("v%d" % i) for i in range(4)]
@@ -33,8 +40,10 @@ POS = {0: [W < V[0]], 1: [V[0] < W, W < V[1]], 2: [V[1] < W, W < V[2]], 3: [V[2]
 
 def units(tier):
     u = [("formulas", i) for i in range(5)] + [("deriv", i) for i in (1, 2, 3)] + [("c_vs_py", 0), ("weight", "I"), ("weight", "J"),
-                                                                                    ("tables", 0), ("grid", (2, 3, 2)), ("grid", (4, 1, 3))]
+                                                                                    ("tables", 0), ("grid", (2, 3, 2)), ("grid", (4, 1, 3)),
+                                                                                    ("dos", "smear", "-"), ("dos", "tetra", "tric2"), ("dos", "tetra", "hex2")]
     if tier == "thorough":
+        u += [("dos", "tetra", "cscl"), ("dos", "tetra", "mono2")]
         u += [("grid", (3, 3, 3)), ("grid", (1, 1, 5)), ("tables", 1)]
     return u
 
@@ -377,9 +386,205 @@ def _grid_decide(res, v, mdl, a, mesh, sub):
     (res.violations if bad else res.unconfirmed).append({"key": key, "what": "grid address %s on mesh %s looks up grid point %d, expected %d" % (adr, mesh, int(out[0, 0, 0, 0]), want), "replay": {"address": adr, "mesh": mesh}})
 
 
+# ---------------------------------------------------------------------------------------------- TotalDos / ProjectedDos
+class _FakeDM:
+    def __init__(s, prim):
+        s.primitive = prim
+
+
+class FakeMeshObj:
+    """the attributes Dos/TotalDos/ProjectedDos read from a Mesh"""
+    def __init__(s, frequencies, weights, eigenvectors=None, mesh_numbers=None, grid_address=None, grid_mapping_table=None, ir_grid_points=None, prim=None):
+        s.frequencies = frequencies; s.weights = weights; s.eigenvectors = eigenvectors
+        s.mesh_numbers = mesh_numbers; s.grid_address = grid_address; s.grid_mapping_table = grid_mapping_table
+        s.ir_grid_points = ir_grid_points; s.dynamical_matrix = _FakeDM(prim)
+
+
+def dos_smear_unit(u, res):
+    from engine import symnp
+    harness.setup()
+    import phonopy.phonon.dos as dosm
+    key = "%s:dos:smear" % PID
+    # (1) smearing kernels are the normalised textbook densities
+    x, sg = z3.Real("x"), z3.Real("sigma")
+    A = [x >= -50, x <= 50, sg >= Fraction(1, 100), sg <= 10]
+    with symnp.session({"phonopy.phonon.dos"}), symnp.engine() as eng:
+        for a in A:
+            eng.assume(a)
+        out = dosm.NormalDistribution(symnp.SR(sg)).calc(symnp.SR(x))
+        apps = list(eng.uf_apps.get("exp", []))
+        cau = dosm.CauchyDistribution(symnp.SR(sg)).calc(symnp.SR(x))
+    if len(apps) != 1:
+        raise HarnessError("NormalDistribution.calc evaluated %d exponentials" % len(apps))
+    arg, E = apps[0]
+    from engine.framework import solve
+    v, _ = solve(res, "Normal: exponent == -x^2/(2 sigma^2)", A + [z3.Or(arg * 2 * sg * sg + x * x > Fraction(1, 10 ** 9), arg * 2 * sg * sg + x * x < -Fraction(1, 10 ** 9))], timeout_ms=30000)
+    if v != "unsat":
+        (res.unconfirmed if v == "sat" else res.notes).append({"key": key + ":normal_arg", "what": "exponent of the normal distribution is not -x^2/2sigma^2"} if v == "sat" else "inconclusive normal_arg")
+    s2pi = float(np.sqrt(2 * np.pi))
+    v, m = solve(res, "Normal: value == exp(.)/(sigma sqrt(2 pi))", A + [E > 0, E <= 1, z3.Or(harness.to_term(out) * sg * Fraction(s2pi) - E > Fraction(1, 10 ** 9), harness.to_term(out) * sg * Fraction(s2pi) - E < -Fraction(1, 10 ** 9))], timeout_ms=30000)
+    if v == "sat":
+        xv, sv = float(model_value(m, x)), float(model_value(m, sg))
+        got = float(dosm.NormalDistribution(sv).calc(xv)); ref = float(np.exp(-xv * xv / (2 * sv * sv)) / (sv * np.sqrt(2 * np.pi)))
+        (res.violations if abs(got - ref) > 1e-9 * max(1, abs(ref)) else res.unconfirmed).append({"key": key + ":normal", "what": "NormalDistribution.calc(%g; sigma=%g) = %g, normalised Gaussian = %g" % (xv, sv, got, ref), "replay": {"x": xv, "sigma": sv}})
+    elif v == "unknown":
+        res.notes.append("inconclusive normal value")
+    ct = harness.to_term(cau)
+    v, m = solve(res, "Cauchy: value == gamma/(pi (x^2 + gamma^2))", A + [z3.Or(ct * Fraction(float(np.pi)) * (x * x + sg * sg) - sg > Fraction(1, 10 ** 9), ct * Fraction(float(np.pi)) * (x * x + sg * sg) - sg < -Fraction(1, 10 ** 9))], timeout_ms=30000)
+    if v == "sat":
+        xv, sv = float(model_value(m, x)), float(model_value(m, sg))
+        got = float(dosm.CauchyDistribution(sv).calc(xv)); ref = sv / (np.pi * (xv * xv + sv * sv))
+        (res.violations if abs(got - ref) > 1e-9 * max(1, abs(ref)) else res.unconfirmed).append({"key": key + ":cauchy", "what": "CauchyDistribution.calc(%g; gamma=%g) = %g, normalised Lorentzian = %g" % (xv, sv, got, ref), "replay": {"x": xv, "gamma": sv}})
+    elif v == "unknown":
+        res.notes.append("inconclusive cauchy value")
+    # (2) TotalDos / ProjectedDos with smearing: symbolic smearing amplitudes G[q, band, point] >= 0 injected as the smearing
+    #     function's values (the kernels themselves are (1)), symbolic |e|^2 coefficients
+    nq, nb, npdos = 3, 4, 2
+    weights = np.array([1, 2, 3], dtype="int64")
+    freqs = np.array([[1.0, 2.0, 3.5, 4.0], [1.2, 2.2, 3.1, 4.4], [0.8, 2.6, 3.3, 4.9]])
+    fpts = np.array([1.5, 3.0])
+    gs = harness.reals("G", nq * nb * len(fpts)); es = harness.reals("E2", nq * npdos * nb)
+    G = symnp.wrap_reals(gs, (len(fpts), nq, nb)); E2 = symnp.wrap_reals(es, (nq, npdos, nb))
+    Abox = box(gs, 0, 1) + box(es, 0, 1)
+
+    class Amp:
+        def __init__(s):
+            s.k = -1
+
+        def calc(s, x):
+            s.k = (s.k + 1) % len(fpts)
+            return G[s.k]
+    mesh = FakeMeshObj(freqs, weights, eigenvectors=np.ones((nq, 3 * 2, nb), dtype=complex))
+    with symnp.session({"phonopy.phonon.dos"}):
+        td = dosm.TotalDos(mesh, sigma=0.1)
+        td._frequency_points = fpts; td._smearing_function = Amp()
+        td.run()
+        tdos = np.asarray(td.dos, dtype=object)
+        pd = dosm.ProjectedDos(mesh, sigma=0.1)
+        pd._frequency_points = fpts; pd._smearing_function = Amp(); pd._eigvecs2 = E2
+        pd.run()
+        pdos = np.asarray(pd.projected_dos, dtype=object)
+    wn = weights / float(weights.sum())
+    want_t = [sum(wn[q] * symnp.SR(gs[(k * nq + q) * nb + b]) for q in range(nq) for b in range(nb)) for k in range(len(fpts))]
+    want_p = [[sum(wn[q] * symnp.SR(gs[(k * nq + q) * nb + b]) * symnp.SR(es[(q * npdos + j) * nb + b]) for q in range(nq) for b in range(nb)) for k in range(len(fpts))] for j in range(npdos)]
+    v, m, idx = assert_equal(res, "TotalDos (smearing) == sum_q w_q sum_b g(f_qb - f) / sum_q w_q for all amplitudes", symnp.unwrap(tdos), symnp.unwrap(symnp.symarray(want_t)), Abox, tol=1e-10)
+    if v == "sat":
+        res.unconfirmed.append({"key": key + ":total", "what": "smearing total DOS differs from the weighted, normalised sum of the smearing function"})
+    v, m, idx = assert_equal(res, "ProjectedDos (smearing) == sum_q w_q sum_b |e|^2 g / sum_q w_q for all amplitudes and coefficients", symnp.unwrap(pdos), symnp.unwrap(symnp.symarray([t for row in want_p for t in row])), Abox, tol=1e-10, relax=True)
+    if v == "sat":
+        res.unconfirmed.append({"key": key + ":projected", "what": "smearing projected DOS differs from the weighted sum of |e|^2 g"})
+    res.twins.append({"name": "smear twin", "verdict": "sat" if any(isinstance(t, z3.ExprRef) for t in symnp.unwrap(pdos)) else "unsat"})
+    res.samples.append({"unit": res.unit, "symbols": len(gs) + len(es)})
+    return res
+
+
+def _dos_mesh(gid):
+    import geometries
+    from checks.c19 import spring_fc
+    ph = geometries.phonopy_obj(gid, "211")
+    ph.force_constants = spring_fc(ph, seed=7)
+    ph.run_mesh([2, 2, 2] if gid != "hex2" else [3, 3, 2], with_eigenvectors=True, is_mesh_symmetry=False, is_gamma_center=(gid == "hex2"))
+    return ph
+
+
+def dos_tetra_unit(u, res):
+    from engine import symnp, bridge
+    ctx = harness.setup()
+    import phonopy.phonon.dos as dosm
+    gid = u[2]
+    key = "%s:dos:tetra:%s" % (PID, gid)
+    ph = _dos_mesh(gid)
+    mesh = ph._mesh
+    nq, nb = mesh.frequencies.shape
+    nat = nb // 3
+    fr = np.sort(mesh.frequencies.ravel())
+    fpts = np.array([fr[len(fr) // 5] + 0.013, fr[len(fr) // 2] + 0.007, fr[(4 * len(fr)) // 5] - 0.011])
+    es = harness.reals("E2", nq * nat * nb)
+    Abox = box(es, 0, 1)
+    E2 = symnp.wrap_reals(es, (nq, nat, nb))
+    Nrm = symnp._zeros((nq, 1, nb))
+    for q in range(nq):
+        for b in range(nb):
+            Nrm[q, 0, b] = sum(E2[q, j, b] for j in range(nat))
+    br = bridge.Bridge(ctx.shim, ctx.ir); br.install()
+    out = {}
+    try:
+        with symnp.session():
+            for lang in ("C", "Py"):
+                for label, coef in (("atoms", E2), ("norm", Nrm)):
+                    pd = dosm.ProjectedDos(mesh, use_tetrahedron_method=True)
+                    pd._frequency_points = fpts
+                    pd._eigvecs2 = coef
+                    pd._openmp_thm = (lang == "C")
+                    if lang == "Py":
+                        mn = [int(x) for x in mesh.mesh_numbers]
+                        pd._tetrahedron_mesh._lang = "Py"; pd._tetrahedron_mesh._grid_order = [1, mn[0], mn[0] * mn[1]]
+                    pd.run()
+                    out[(lang, label)] = np.asarray(pd.projected_dos, dtype=object)
+    finally:
+        br.uninstall()
+    res.add_functions(br.functions); res.stat("ir_steps", br.steps)
+
+    def decide(name, lhs, rhs, sub, relax=False):
+        v, m, idx = assert_equal(res, name + " [%s]" % gid, lhs, rhs, Abox, tol=1e-9, chunk=12)
+        if v == "sat":
+            ev = harness.model_floats(m, es).reshape(nq, nat, nb)
+            ok, what = replay_dos_tetra(gid, fpts, ev)
+            (res.violations if ok else res.unconfirmed).append({"key": key + ":" + sub, "what": what, "replay": {"crystal": gid, "E2": ev.tolist()}})
+        elif v == "unknown":
+            res.notes.append("inconclusive " + key + ":" + sub)
+        return v
+    for lang in ("C", "Py"):
+        tot = [sum(out[(lang, "atoms")][j, k] for j in range(nat)) for k in range(len(fpts))]
+        decide("tetrahedron PDOS (%s): sum over atoms == DOS weighted by sum_j |e_j|^2 (= total DOS for normalised eigenvectors)" % lang, symnp.unwrap(symnp.symarray(tot)), symnp.unwrap(out[(lang, "norm")][0]), "sum_" + lang)
+        # non-negativity for non-negative coefficients
+        terms = [harness.to_term(t) for t in symnp.unwrap(out[(lang, "atoms")])]
+        from engine.framework import solve
+        v, m = solve(res, "tetrahedron PDOS (%s) >= 0 for all |e|^2 >= 0 [%s]" % (lang, gid), Abox + [z3.Or([t < -Fraction(1, 10 ** 9) for t in terms if isinstance(t, z3.ExprRef)] or [z3.BoolVal(False)])], timeout_ms=60000)
+        if v == "sat":
+            ev = harness.model_floats(m, es).reshape(nq, nat, nb)
+            ok, what = replay_dos_tetra(gid, fpts, ev)
+            (res.violations if ok else res.unconfirmed).append({"key": key + ":neg_" + lang, "what": what, "replay": {"crystal": gid, "E2": ev.tolist()}})
+    decide("tetrahedron PDOS: compiled kernel (grid lookup + weights) == Python TetrahedronMesh for all |e|^2", symnp.unwrap(out[("C", "atoms")]), symnp.unwrap(out[("Py", "atoms")]), "c_vs_py")
+    # ground facts: total DOS (C and Py) == PDOS with unit coefficients; smearing-free normalisation by the number of grid points
+    td = dosm.TotalDos(mesh, use_tetrahedron_method=True); td._frequency_points = fpts; td.run(); tc = np.array(td.dos)
+    td2 = dosm.TotalDos(mesh, use_tetrahedron_method=True); td2._frequency_points = fpts; td2._openmp_thm = False; td2.run(); tp = np.array(td2.dos)
+    pd = dosm.ProjectedDos(mesh, use_tetrahedron_method=True); pd._frequency_points = fpts; pd.run(); pc = np.array(pd.projected_dos)
+    facts = [("TotalDos C == TotalDos Py", float(np.abs(tc - tp).max()) < 1e-9), ("sum of real PDOS == TotalDos (normalised LAPACK eigenvectors)", float(np.abs(pc.sum(axis=0) - tc).max()) < 1e-9),
+             ("TotalDos >= 0", bool((tc >= -1e-12).all()))]
+    for name, ok in facts:
+        res.queries.append({"name": name + " [ground fact, %s]" % gid, "verdict": "unsat" if ok else "sat", "seconds": 0.0, "nvars": 0, "nontrivial": False, "hash": "ground"})
+        if not ok:
+            res.violations.append({"key": key + ":ground:" + name.split(" ")[0], "what": name + " fails on " + gid, "replay": {"crystal": gid}})
+    v2, _, _ = assert_equal(Result("t"), "twin", symnp.unwrap(out[("C", "atoms")])[:6], [t * Fraction(3, 2) if isinstance(t, z3.ExprRef) else t for t in symnp.unwrap(out[("Py", "atoms")])[:6]], Abox, tol=1e-9)
+    res.twins.append({"name": "dos twin (factor 1.5) refutable", "verdict": v2})
+    res.samples.append({"unit": res.unit, "grid_points": int(nq), "bands": int(nb), "symbols": len(es), "frequency_points": fpts.tolist()})
+    return res
+
+
+def replay_dos_tetra(gid, fpts, ev):
+    import phonopy.phonon.dos as dosm
+    ph = _dos_mesh(gid)
+    mesh = ph._mesh
+    outs = {}
+    for lang in ("C", "Py"):
+        pd = dosm.ProjectedDos(mesh, use_tetrahedron_method=True); pd._frequency_points = fpts; pd._eigvecs2 = np.array(ev, dtype="double", order="C"); pd._openmp_thm = (lang == "C"); pd.run()
+        outs[lang] = np.array(pd.projected_dos)
+        pn = dosm.ProjectedDos(mesh, use_tetrahedron_method=True); pn._frequency_points = fpts; pn._eigvecs2 = np.array(ev.sum(axis=1, keepdims=True), dtype="double", order="C"); pn._openmp_thm = (lang == "C"); pn.run()
+        outs[lang + "n"] = np.array(pn.projected_dos)
+    d1 = float(np.abs(outs["C"] - outs["Py"]).max())
+    d2 = max(float(np.abs(outs[l].sum(axis=0) - outs[l + "n"][0]).max()) for l in ("C", "Py"))
+    d3 = max(0.0, -float(min(outs["C"].min(), outs["Py"].min())))
+    return max(d1, d2, d3) > 1e-9, "tetrahedron projected DOS on %s: |C - Py| = %.3g, |sum over atoms - norm-weighted DOS| = %.3g, most negative value %.3g" % (gid, d1, d2, -d3)
+
+
+def dos_unit(u, res):
+    return dos_smear_unit(u, res) if u[1] == "smear" else dos_tetra_unit(u, res)
+
+
 def run_unit(u):
     res = Result("/".join(str(x) for x in u))
-    return {"formulas": formulas_unit, "deriv": deriv_unit, "c_vs_py": c_vs_py_unit, "weight": weight_unit, "tables": tables_unit, "grid": grid_unit}[u[0]](u, res)
+    return {"formulas": formulas_unit, "deriv": deriv_unit, "c_vs_py": c_vs_py_unit, "weight": weight_unit, "tables": tables_unit, "grid": grid_unit, "dos": dos_unit}[u[0]](u, res)
 
 
 def main(tier, seed):
@@ -387,8 +592,9 @@ def main(tier, seed):
     harness.setup()
     us = units(tier)
     chk.bounds = ["vertex frequencies 0 <= v0 < v1 < v2 < v3 <= 100 (strict order: degenerate vertices excluded), omega strictly inside a case",
-                  "one symbolic tetrahedron for the sorted/case-split weight; grid addresses in [-2N, 2N] on the listed meshes"]
-    chk.outside = ["Gaussian/Lorentzian smearing DOS normalisation (quadrature)", "degenerate vertex frequencies and omega exactly on a vertex", "projected-DOS sum rule (follows from linearity in the coefficient; not separately encoded)", "rounding"]
+                  "one symbolic tetrahedron for the sorted/case-split weight; grid addresses in [-2N, 2N] on the listed meshes",
+                  "dos: x in [-50,50], sigma in [0.01,10]; 3 q x 4 bands smearing model; tetrahedron PDOS on 2x2x2 / 3x3x2 meshes of 2-atom cells, |e|^2 coefficients in [0,1], 3 frequency points"]
+    chk.outside = ["Gaussian/Lorentzian smearing DOS normalisation (quadrature)", "degenerate vertex frequencies and omega exactly on a vertex", "tetrahedron DOS with symbolic frequencies through the whole grid (frequencies are concrete in the dos unit; symbolic in formulas/weight)", "rounding"]
     chk.assumptions = ["doubles as exact reals; the tree differentiator is part of the trusted base (self-tested against finite differences)"]
     chk.run_units(run_unit, us)
     return chk.finish()
